@@ -45,7 +45,7 @@ Definition handlers_of (p : program) (nm : nat) : list hbody := nth nm p [].
 Inductive lent :=
 | LPlain (tok hi : nat)
 | LStep (tok hi k : nat)
-| LRes (tok hi k : nat) (vals : list Z) (err : bool)
+| LRes (tok hi k e : nat) (vals : list Z) (err : bool)   (* e: the event instance whose Value is delivered (not part of the observable) *)
 | LTmo (tok hi k : nat)
 | LTmoUncaught (tok hi k : nat)
 | LEnd (tok hi : nat)
@@ -217,7 +217,7 @@ Definition gen_resume (gid : nat) (how : rkind) (w : world) : world * gres :=
             | RNext => Some w
             | RSend e =>
                 match nth_error (evs w) e with
-                | Some ev => Some (add_log (LRes (g_tok g) (g_hi g) (g_cur g) (e_vals ev) (e_errors ev)) w)
+                | Some ev => Some (add_log (LRes (g_tok g) (g_hi g) (g_cur g) e (e_vals ev) (e_errors ev)) w)
                 | None => Some (set_bad w)
                 end
             | RThrow => if g_catch g then Some (add_log (LTmo (g_tok g) (g_hi g) (g_cur g)) w) else None
